@@ -259,8 +259,22 @@ fn build_seq(e: &mut Ent) -> Seq {
             body.extend(encode(&Insn::Trapa(0)));
             texts.push(text);
         } else {
-            let v = 1 + e.below(63);
-            let h = 0xffd000 + 0x10 * v + 0x400 * e.below(4);
+            // vectors: any, or related to an earlier one of this sequence (the same again, 4 x, / 4, 2 x, neighbours - a
+            // vector number is also a table index and a byte offset); handlers: their own address, or one shared with an
+            // earlier installation (one handler serving several vectors, a vector re-registered with the same handler)
+            let v = match (handlers.last().copied(), e.below(3)) {
+                (Some((pv, _)), 0) => {
+                    let pv: u32 = pv;
+                    let c = [pv, pv * 4, pv / 4, pv * 2, pv / 2, pv + 1, pv.saturating_sub(1), pv ^ 1];
+                    let x = c[e.below(c.len() as u32) as usize];
+                    if (1..64).contains(&x) { x } else { 1 + e.below(63) }
+                }
+                _ => 1 + e.below(63),
+            };
+            let h = match (handlers.is_empty(), e.below(3)) {
+                (false, 0) => handlers[e.below(handlers.len() as u32) as usize].1,
+                _ => 0xffd000 + 0x10 * v + 0x400 * e.below(4),
+            };
             let blk = place(e, 8, &mut avoid, true);
             let mut b = vec![];
             b.extend(v.to_be_bytes());
